@@ -125,6 +125,18 @@ class Index:
             if prev and f.body is not None and prev in self.func_by_id:
                 self.func_by_id[prev].body = self.func_by_id[prev].body or f.body
                 self.func_by_id[prev].defn = f
+        # redeclarations after the definition (e.g. `int numNibbles(int);` following the static definition)
+        for f in list(self.func_by_id.values()):
+            if f.body is None and not getattr(f, 'defn', None):
+                prev = f.node.get('previousDecl')
+                hops = 0
+                while prev and prev in self.func_by_id and hops < 8:
+                    g = self.func_by_id[prev]
+                    if g.body is not None:
+                        f.defn = g
+                        break
+                    prev = g.node.get('previousDecl')
+                    hops += 1
 
     def _index(self, n, scope, cls):
         k = n.get('kind')
